@@ -514,7 +514,7 @@ impl Month {
 pub enum Field {
     Invalid,
     /// ' '
-    Blank(u8),
+    Blank(usize),
     /// '-'
     Hyphen,
     /// ':'
@@ -676,9 +676,9 @@ impl<'a> FormatParser<'a> {
     }
 
     #[inline]
-    fn punctuation_count(&mut self, expect: u8) -> u8 {
+    fn punctuation_count(&mut self, expect: u8) -> usize {
         self.remain().map_or(0, |rem| {
-            rem.iter().take_while(|&y| y.eq(&expect)).count() as u8
+            rem.iter().take_while(|&y| y.eq(&expect)).count()
         })
     }
 
@@ -928,7 +928,7 @@ impl<'a> FormatParser<'a> {
                 let field = match char {
                     b' ' => {
                         let len = self.punctuation_count(b' ');
-                        self.advance(len as usize);
+                        self.advance(len);
                         Field::Blank(len + 1)
                     }
                     b'-' => Field::Hyphen,
